@@ -34,7 +34,8 @@ CHECKS.update({
                   "the uncached specification value under the CURRENT definitions and inputs; (2) the differential form as worded: definitions and user-assigned values evolve by the edits "
                   "alone (refinement to the abstract model Diff.adefs/ainp_step), so two histories with the same edits - in particular a history and its edits-only replay - answer every "
                   "request alike. Structural edits (cells/spaces/bases, creating/deleting references) belong to C03/C11-C13 and reach this layer only through the correspondence. "
-                  "Finding D40 (fixed in /repo) was found while proving (2).",
+                  "Finding D40 (fixed in /repo) was found while proving (2). (3) No theorem: a wide edits-only replay differential on the implementation over the structural vocabulary "
+                  "(spaces, inheritance, shadowing, renames, ItemSpaces), 150/2000 histories per run.",
              note=EXEC_NOTE + "; theorems assume refn_ok (by-name reads only of visible references; formulas may handle failures of callees since the repair of D20); ghost flag s_reent=false (no formula re-entered itself, i.e. no DeepReferenceError cycle); depth-limit error excluded from the differential",
              technique="Coq proof (coverage invariant by simulation of executor against a reads-instrumented spec; locality lemma; closure of reach; refinement of definitions+inputs to an abstract edit model) + vm_compute correspondence + edits-only differential", design="6/C02"),
  "C06": dict(text="Coq theorems: clearing/overwriting an element removes exactly the held elements reachable from it in the dependency graph (reach = reflexive-transitive closure, proved), "
